@@ -42,7 +42,7 @@ def safe_cuts(lines):
     return out
 
 
-PLACES = ["samedir", "subdir", "caller", "ipath-main", "ipath-abs", "ipath-nested", "cwd"]
+PLACES = ["samedir", "subdir", "caller", "ipath-main", "ipath-abs", "ipath-nested", "cwd", "ipath-dot", "samebase"]
 
 
 class Tree:
@@ -53,6 +53,7 @@ class Tree:
         self.need_main_ipath = False
         self.need_abs_ipath = False
         self.need_nested = False
+        self.need_dot = False
         self.places = []
 
     def build(self, lines, path, depth, nfiles, allow):
@@ -93,6 +94,14 @@ class Tree:
             elif place == "ipath-nested":
                 self.need_nested = True
                 cpath = VR + "/proj/ipn/" + name
+            elif place == "ipath-dot":
+                # a helper in another directory names its own directory with .includepath "."
+                self.need_dot = True
+                cpath = VR + "/proj/lib/" + name
+            elif place == "samebase":
+                # a different file with the includer's own base name, in a sub-directory written in the path
+                inc["p"] = "same%d/%s" % (self.n, os.path.basename(path))
+                cpath = d + "/" + inc["p"]
             else:
                 inc["p"] = "cw/" + name
                 cpath = VR + "/work/cw/" + name
@@ -119,6 +128,9 @@ def make_case(rnd, flat, allow, missing=False):
     if t.need_nested:
         head.append(line("include", p="setpath.inc", abs=False))
         t.files[VR + "/proj/setpath.inc"] = [line("includepath", p="ipn", abs=False)]
+    if t.need_dot:
+        head.append(line("include", p="lib/setdot.inc", abs=False))
+        t.files[VR + "/proj/lib/setdot.inc"] = [line("includepath", p=".", abs=False)]
     if missing:
         pos = rnd.choice(safe_cuts(body))
         body.insert(pos, line("include", p="nothere%d.inc" % rnd.randrange(100), abs=False))
@@ -220,6 +232,7 @@ def check(prop, tier, seed):
             "rule": "%d base programs (symbols, macro, device, conditionals, data, aliases) x seeded cuts into trees of up to 4 files / depth 3 "
                     "(no conditional or macro definition split) x placement of every file in {same directory, sub-directory in the path, "
                     "caller-supplied directory, .includepath of the main file (relative / absolute), .includepath declared in a nested file, "
+                    ".includepath \".\" in a helper of another directory, a file with the includer's own base name in a sub-directory, "
                     "path relative to the process directory} x optional .exit (followed by garbage) x missing-file variants; "
                     "build_file(tree) and build_str(flattened) both judged; distinct = distinct trees" % len(base_programs()),
             "placements": places, "files_per_tree_max": max(len(t.files) for t, _, _, _ in cases),
